@@ -23,6 +23,9 @@ func aggValue(r *Rng, nanOK bool) any {
 	case 1:
 		return int64(r.Range(-3, 9))
 	case 2:
+		if r.Chance(30) {
+			return Pick(r, []float32{0.1, 1234.567, -0.3, 16777217}) // float32 values that are not short decimals in float64
+		}
 		return float32(r.Range(-6, 6)) / 2
 	case 3, 4:
 		return float64(r.Range(-12, 12)) / 4
@@ -47,6 +50,9 @@ func genAgg(r *Rng, tier string) *Enc {
 	n := r.SmallN()
 	if r.Chance(30) {
 		n = r.Range(4, 12)
+	}
+	if r.Intn(80) == 0 {
+		n = Pick(r, []int{1025, 1027, 2050, 4099}) // beyond plausible chunking thresholds, not a multiple of 4
 	}
 	for _, name := range []string{"a", "b", "stat"}[:ncols] {
 		nan := r.Chance(30)
@@ -75,12 +81,45 @@ func genAgg(r *Rng, tier string) *Enc {
 		}
 		df.Columns[name] = &dataframe.Column[any]{Name: name, Data: d}
 	}
+	// the Series objects are created first and, in a fifth of the cases, USED before the recorded calls: every
+	// aggregation is evaluated once, then cells are overwritten in place (same arrays, same lengths) — a value
+	// cached by the first evaluation must not survive into the recorded one
+	names := df.ColumnNames()
+	series := map[string]*dataframe.Series{}
+	for _, name := range names {
+		series[name] = dataframe.NewSeries(name, df.Columns[name].Data)
+	}
+	if n > 0 && r.Chance(20) {
+		guard(func() error {
+			for _, name := range names {
+				s := series[name]
+				s.Sum()
+				s.Mean()
+				s.Min()
+				s.Max()
+			}
+			df.Sum()
+			df.Mean()
+			df.Min()
+			df.Max()
+			df.Describe()
+			return nil
+		})
+		for _, name := range names {
+			for k := r.Range(1, 2); k > 0; k-- {
+				v := aggValue(r, false)
+				if r.Chance(15) {
+					v = "abc"
+				}
+				df.Columns[name].Data[r.Intn(n)] = v
+			}
+		}
+	}
 	e.Tok("F")
 	e.Frame(df)
 	// series level, per column in sorted order
-	names := df.ColumnNames()
 	for _, name := range names {
-		s := dataframe.NewSeries(name, df.Columns[name].Data)
+		s := series[name]
 		for ki, f := range []func() (float64, error){s.Sum, s.Mean, s.Min, s.Max} {
 			var v float64
 			st, _ := guard(func() error { var err error; v, err = f(); return err })
